@@ -416,11 +416,15 @@ impl<'v> AValueDyn<'v> {
 
     #[inline]
     pub(crate) unsafe fn heap_freeze(self, freezer: &Freezer) -> FreezeResult<FrozenValue> {
+        #[cfg(feature = "verif_hooks")]
+        crate::verif_hooks::census("freeze", self.vtable.type_name);
         (self.vtable.heap_freeze)(self.value, freezer)
     }
 
     #[inline]
     pub(crate) unsafe fn heap_copy(self, tracer: &Tracer<'v>) -> Value<'v> {
+        #[cfg(feature = "verif_hooks")]
+        crate::verif_hooks::census("gc", self.vtable.type_name);
         (self.vtable.heap_copy)(self.value, tracer)
     }
 
